@@ -14,14 +14,14 @@ P = {
          "Decides: merge effect table (mismatch -> error and no write; match -> exactly positive<-positive, negative<-negative, zero+=zero), the argument's mod-set is representation-only for every MergeWith in the module, every Store.MergeWith accepts any Store (comma-ok assertion, ForEach fallback whose callback never stops), cached totals follow in the dense family.",
          "Not decided: equality of bin contents for all partitions / merge trees (numeric). Trusted: go/ssa, library summaries listed in evidence.", "DESIGN.md §4 C02"),
  "C03": ("term normal forms over SSA, sibling agreement (static analysis)",
-         "Decides only structural necessary conditions: floor idiom of Index in the three mappings, Value/LowerBound pairing, multiplier used consistently as factor and divisor, int32 bounds wired into min/max indexable values. The numeric core (alpha-accuracy, monotonicity) is not decided.",
+         "Decides only structural necessary conditions: floor idiom of Index in the three mappings, Value/LowerBound pairing, multiplier used consistently as factor and divisor, int32 bounds wired into min/max indexable values, RelativeAccuracy is the algebraic inverse of the accuracy constructor per kind, approximateLog/approximateInverseLog use one polynomial (coefficients, Cardano terms). The numeric core (alpha-accuracy, monotonicity) is not decided.",
          "Weakest claim: the property is numeric; only plumbing is decided. Trusted: go/ssa.", "DESIGN.md §4 C03"),
  "C04": ("SSA path/dominance rules + term normal forms (static analysis)",
-         "Decides structural necessary conditions: Add/AddWithCount/AddBin agreement in all stores, cached-total coherence in the dense family, the iteration contract (callback result controls continuation; channels closed), MinIndex/MaxIndex error iff empty, inclusive window loops in read paths.",
-         "Not decided: array shifting / paging / compaction as functions on counts. Trusted: go/ssa.", "DESIGN.md §4 C04"),
+         "Decides structural necessary conditions: Add/AddWithCount/AddBin agreement in all stores, cached-total coherence in the dense family, the iteration contract (callback result controls continuation; channels closed), MinIndex/MaxIndex error iff empty, inclusive window loops in read paths, and the dense window-moving primitives (shiftCounts, resetBins, centerCounts) as linear forms over minIndex/maxIndex/offset/len(bins), with truncating division applied only to widths.",
+         "Not decided: paging / buffer compaction as functions on counts; preservation of the window invariant through arbitrary new arithmetic. Trusted: go/ssa.", "DESIGN.md §4 C04"),
  "C05": ("method-set / static call-graph closure (static dispatch hazards) + terms (static analysis)",
-         "Decides: shadow safety of every DenseStore method promoted into the collapsing stores (no promoted method reaches a re-declared one or regrows storage), the bin cap is applied in getNewLength and used by every growth site, the collapsed short-circuit table of normalize, Copy keeps kind/limit/flag and Clear resets the flag.",
-         "Not decided: where folded weight lands; merge safety of wide stores (needs a relational invariant, see DESIGN C05-ND). Trusted: go/types method sets, go/ssa.", "DESIGN.md §4 C05"),
+         "Decides: shadow safety of every DenseStore method promoted into the collapsing stores (no promoted method reaches a re-declared one or regrows storage), the bin cap is applied in getNewLength and used by every growth site, the collapsed short-circuit table of normalize, Copy keeps kind/limit/flag and Clear resets the flag, the shared window primitives (linear forms), same-kind merge folds only out-of-window bins into the edge slot, a too-wide adjust leaves a window exactly as wide as the array with the collapsed weight in the new edge slot, and the window established on the empty-store edge of extendRange fits the array (found defect F7).",
+         "Not decided: general preservation of maxIndex-minIndex+1 <= len(bins) through arbitrary new arithmetic; accuracy of the non-collapsed quantiles (numeric). Trusted: go/types method sets, go/ssa.", "DESIGN.md §4 C05"),
  "C06": ("codec grammar extraction + constant folding over SSA, mod-sets (static analysis)",
          "Decides: writer/reader grammar agreement per block kind against the documented grammars, side/flag-type pairing, delta discipline, decoding is additive and block-local, Encode only appends and leaves the sketch representation-only, omitIndexMapping table.",
          "Not decided: bit-exact equality of weights after the round trip. Trusted: go/ssa, constant folder over initialisers.", "DESIGN.md §4 C06"),
@@ -32,7 +32,7 @@ P = {
          "Decides: no error returned by a module decoding function is dropped on any call chain below the public decoders; primitive decoders return io.EOF without consuming on short input and never index out of range; default arms / mapping mismatch / missing mapping return errors; item loops of bin decoders exit only by count or error.",
          "Not decided: panics from absurd-but-well-formed input (huge indexes). Trusted: go/ssa.", "DESIGN.md §4 C08"),
  "C09": ("constant folding of protobuf tags vs struct tags + sibling agreement ToProto/EncodeProto (static analysis)",
-         "Decides: every streaming-builder method writes (field<<3|wiretype) matching the generated struct tag and the matching value encoding; ToProto and EncodeProto set the same fields from the same terms per store/mapping/sketch; the rebuild path feeds sides correctly and adds both sparse and contiguous counts.",
+         "Decides: every streaming-builder method writes (field<<3|wiretype) matching the generated struct tag and the matching value encoding; ToProto and EncodeProto set the same fields from the same terms per store/mapping/sketch; a builder method may skip the field only for the proto3 zero value; the rebuild path feeds sides correctly and adds both sparse and contiguous counts unconditionally (no branch choosing one form).",
          "Not decided: behaviour of the protobuf runtime. Trusted: struct tags in ddsketch.pb.go.", "DESIGN.md §4 C09"),
  "C10": ("wrapper-discipline path rules + promoted-method analysis + field coverage (static analysis)",
          "Decides: each of the 8 mutators of the exact variant performs the inner operation first and the corresponding statistics operation only on its success edge; no state-changing *DDSketch method is reachable without the wrapper; SummaryStatistics Copy/Clear/Reweight/Rescale/MergeWith/Add field tables; quantile clamping table; statistics blocks encode/decode symmetry.",
@@ -59,7 +59,7 @@ P = {
          "Decides: identity shortcut returns Copy(); otherwise both sides converted into the matching target store, result carries newMapping and the copied zero weight; source mod-set empty / result not aliased; the weight handed to the target store is provably >= 0 on every path (sign domain, axioms listed).",
          "Not decided: conservation of total weight up to rounding, combined accuracy. Trusted: sign axioms in evidence.", "DESIGN.md §4 C17"),
  "C18": ("interval analysis of buffer accesses + term normal forms + sibling agreement (static analysis)",
-         "Decides: every buffer access of the six primitive decoders is in range on every path, at most 9 bytes are inspected, short input -> io.EOF with no store to the cursor, encoders append 1..9 (8) bytes and nothing else; size functions are tied to the encoders; zig-zag and var-float transforms are inverse pairs by shape; group constants agree.",
+         "Decides: every buffer access of the six primitive decoders is in range on every path, at most 9 bytes are inspected, short input -> io.EOF with no store to the cursor, encoders append 1..9 (8) bytes and nothing else; size functions are tied to the encoders; zig-zag, var-float and fixed little-endian float transforms are inverse pairs by shape with no value special-cased; group constants agree.",
          "Not decided: decode(encode(v)) = v for all values (value-level). Trusted: go/ssa.", "DESIGN.md §4 C18"),
  "C19": ("dispatch-table closure via constant folding + term normal forms (static analysis)",
          "Decides: for each mapping kind the binary flag and protobuf enum written are the ones whose decoder arm constructs that same type, parameters travel in (gamma, offset) order, constructors store what is serialised, accuracy constructors go through the gamma constructors, Equals is a comma-ok same-type test and a symmetric tolerance conjunction.",
